@@ -611,6 +611,12 @@ def run(ctx, only=None):
             dct["by_gen"][g] = dct["by_gen"].get(g, 0) + n
         for g, n in o["worst_diff_histogram"].items():
             dct["worst_diff_histogram"][g] = dct["worst_diff_histogram"].get(g, 0) + n
+        for g, n in o["off_by_class"].items():
+            dct.setdefault("off_by_class", {})
+            dct["off_by_class"][g] = dct["off_by_class"].get(g, 0) + n
+        for key in ("max_forward_error", "max_inverse_error"):
+            dct[key] = max(dct.get(key, 0.0), o[key])
+        dct["classification_slack"] = o["slack"]
         dfails += o["failures"] or []
     # the committed minimal witness of the known finding is re-run every time (it prints KNOWN-FINDING while it still fails)
     r = ctx.run([binp, "dctone", json.dumps([130] + [128] * 63)], timeout=300)
@@ -619,11 +625,19 @@ def run(ctx, only=None):
     o = json.loads(r.stdout)
     if o["max_diff"] > 1 or not o["valid"]:
         dfails.insert(0, {"what": "inverse DCT of the forward DCT differs by more than one", "gen": "witness flat-128-one-pixel-130",
-                          "pixels": o["pixels"], "coefs": o["forward"], "back": o["back"], "at": o["at"], "diff": o["max_diff"]})
+                          "pixels": o["pixels"], "coefs": o["forward"], "back": o["back"], "at": o["at"], "diff": o["max_diff"],
+                          "class": o["class"]})
     seen = set()
     for f in dfails:
-        # one finding per kind of failure: an invalid forward block, or a round trip off by exactly d (d = 2, 3, ...)
+        # one finding per kind of failure: an invalid forward block, or a round trip off by exactly d (d = 2, 3, ...).
+        # The known finding covers only blocks on which the implementation is a faithful round-to-nearest DCT pair
+        # (class "inherent": every coefficient within 0.5 + slack of the exact DCT-II, every returned pixel within
+        # 0.5 + slack of the exact inverse of those coefficients - measured by the harness in float64): there the
+        # loss is the integer quantisation of the coefficients themselves.  A block that fails because the
+        # arithmetic is off (class "impl-only") is a different violation and is reported.
         key = "dct:invalid-forward" if f["at"] < 0 else "dct:roundtrip:diff%d" % f["diff"]
+        if f["at"] >= 0 and f.get("class") != "inherent":
+            key += ":impl-only"
         if key in seen:
             continue
         seen.add(key)
